@@ -9,11 +9,15 @@ Queries (one JSON object per line, one answer per line):
   {"q":"routePath","top":b,"mode":"yaml","root":"body.parseObject","path":["applyActions",..],"exc":"KeyError"}
   {"q":"stageRaises","mode":"yaml"}              designed classes per stage
   {"q":"tables"}                                 a summary of the regenerated tables (for the evidence file)
+  {"q":"staticLeaves"}                           per leaf function: every statically possible (class, origin) with covered / excused,
+                                                 and the list of those that are neither (search hints when C03_static_raises fails)
 Imports only the model and the regenerated tables.
 -/
 import Lean.Data.Json
 import Jap.Core.ExcFlow
 import Jap.Gen.ExcFlow
+import Jap.Core.ExcFlowRaises
+import Jap.Gen.ExcFlowRaises
 
 open Lean Jap.ExcFlow
 
@@ -161,6 +165,17 @@ def answer (j : Json) : Json :=
       ("errorRaises", match T.error.raisesWhenNoExit with | some c => Json.str (excName c) | none => Json.null),
       ("subInherited", Json.arr (T.subInherited.map Json.str).toArray), ("printConfigCleanup", Json.str (lastName (reprStr T.printConfigCleanup))), ("plainExit", (T.plainExit : Json)), ("innerExitOnError", Json.bool T.innerExitOnError), ("helpExitOnError", Json.bool T.helpExitOnError),
       ("regions", (Region.all.length : Json)), ("states", (St.all.length : Json))]
+  | "staticLeaves" =>
+    let ls := Jap.Gen.ExcFlowRaises.leaves
+    Json.mkObj [
+      ("leaves", Json.arr (ls.map (fun l => Json.mkObj [("name", Json.str l.name), ("region", Json.str (regionName l.region)),
+        ("classes", Json.arr ((l.escapes.map (fun o => excName o.cls)).eraseDups.map Json.str).toArray),
+        ("origins", (l.escapes.length : Json)),
+        ("covered", ((l.escapes.filter (fun o => l.modes.all (fun mode => covered T mode l o.cls))).length : Json)),
+        ("excused", Json.arr ((l.escapes.filter (fun o => !(l.modes.all (fun mode => covered T mode l o.cls)) && excuses.any (excusedBy l o))).map
+          (fun o => Json.str (excName o.cls ++ " @ " ++ o.expr))).toArray)])).toArray),
+      ("uncovered", Json.arr ((uncovered T excuses ls).map (fun (n, c, e) =>
+        Json.mkObj [("leaf", Json.str n), ("class", Json.str (excName c)), ("origin", Json.str e)])).toArray)]
   | q => Json.mkObj [("bad-query", q)]
 
 partial def loop (h : IO.FS.Stream) (out : IO.FS.Stream) : IO Unit := do
